@@ -20,10 +20,10 @@ from .. import rowgen as G
 from .. import rowlib as R
 
 MANIFEST = dict(
-    text="Proof (partial): Lean theorem parse_unparse_partial — parse_row(unparse_row(m, layout)) = m over a hand model of RowParser + CellParser — for every row model without header remaps whose fields are str/int/float/bool, lists of those, untyped lists, sub-records of basic fields and lists of such sub-records, under EVERY admissible target-header set (each list, sub-record and list element independently spread over one column per leaf or packed into one cell), for unbounded strings, integers, list lengths and numbers of fields, with default elision/restoration; int(str(i)) = i proved; each hypothesis has a kernel-checked negative witness that is replayed on the real code. The general statement C07_full stays visible and unproved for: remapped headers (so FlowRowModel itself), sub-records holding lists or sub-records, lists of lists. The flow row schema and all remap dictionaries are tied to the source by T1 theorems (tables_agree_*). The model is tied to the code by differential runs over dynamically created pydantic row models (fixed + random schemas + FlowRowModel) × all target-header subsets (≤ 64, sampled beyond) × strings over | ; \\ space newline , \" é 日 1 0 true and field-name-shaped strings, on the intermediate dict and on the parsed value; direct oracle parse_row(unparse_row(m, layout)) == m on the real code and through real csv/xlsx files.",
+    text="Proof: Lean theorem parse_unparse — parse_row(unparse_row(m, layout)) = m over a hand model of RowParser + CellParser — for EVERY row model whose field types are built, to any nesting depth, from str/int/float/bool, untyped lists, List[T] and sub-records (lists of lists, lists of records holding lists and records, records in records, …) and whose remap tables are consistent at every level (decidable side condition goodTop: names and headers are distinct header segments, header_name_to_field_name undoes field_name_to_header_name), for every representable value (unbounded strings, integers, list lengths, numbers of fields; default elision/restoration) and EVERY layout that is LayoutOk for the value: each position independently spread over one column per leaf or written as one cell (target headers with * or concrete indices, or forced by a remapped field), a one-cell position having a type within the two-level limit (packTy, proved ≤ depth 2), spread positions nesting arbitrarily. Top-level header remaps are covered through RemapConsistent (header_name_to_field_name_with_context leads back to the written field). Instance flow_row_roundtrip: the real FlowRowModel (Edge with from_↔from, nested Condition, Webhook with untyped headers, WhatsAppTemplating with a list, node_uuid/_nodeId …, message_text ↦ row_type_to_main_arg[type]) — its schema and all remap dictionaries are tied to the source by T1 theorems (tables_agree_*), flowRowSchema_in_family and every side condition on the tables are discharged by `decide` on those tables, the only value-level hypothesis is flowMainOk (the field written under message_text is the main argument of the row's type). Proved by structural induction on the schema type (no bounds); int(str(i)) = i proved; every hypothesis has a kernel-checked negative witness that is replayed on the real code. The model is tied to the code by differential runs over dynamically created pydantic row models (fixed + random schemas + FlowRowModel) × all target-header subsets (≤ 64, sampled beyond) × strings over | ; \\ space newline , \" é 日 1 0 true and field-name-shaped strings, on the intermediate dict and on the parsed value; the theorem's own hypotheses (goodTop, Representable, LayoutOk, RemapConsistent) are evaluated by the Lean driver for every case and the round trip is demanded of the real code whenever they hold; also through real csv/xlsx files.",
     ref="§5 C07",
-    note="Trusts: Lean kernel (axioms audited each run), the differential harness and Driver JSON codec, pydantic v1 (field order, defaults, ==), CPython str()/int()/float() as modelled (float is an abstract codec carrying repr(x)), tablib/csv/openpyxl for the file route. FlowRowModel round trips are covered by tie + oracle (≈ 7 k in-domain rows per quick run), not by the theorem. Known finding F-C04-d (spread untyped list of lists) excluded from the main stream and exercised separately. Templates ('{') are outside the representable domain.",
-    technique="Lean 4 proof (record-level induction over fields, frame/nesting lemmas for find_entry, C08 split_join for packed cells) + model/code correspondence + direct round-trip oracle",
+    note="Trusts: Lean kernel (axioms audited each run), the differential harness and Driver JSON codec, pydantic v1 (field order, defaults, ==), CPython str()/int()/float() as modelled (float is an abstract codec carrying repr(x)), tablib/csv/openpyxl for the file route. The first-round statement with the static Admissible (list index 1 standing for every index) is kept visible as C07_static_statement and proved FALSE (target items.2 on a list of records holding lists): the general theorem checks the layout along the value (LayoutOk). Representable now counts an empty untyped list inside List[list] as a blank element (it leaves no cell). Known finding F-C04-d (spread untyped list of lists) is excluded by LayoutOk and exercised separately. Templates ('{') and excluded_headers are outside the domain.",
+    technique="Lean 4 proof (structural induction on the nested schema type; position-local view of find_entry with focus lemmas for record fields and list indices; C08 split_join for one-cell values; context remap undone via a virtual header table) + model/code correspondence + direct round-trip oracle on the theorem's own domain",
 )
 
 _SCHEMAS: list = []   # (description, schema JSON, meta) — filled before forking
@@ -122,14 +122,17 @@ def worker(cases):
         reqs.append({"op": "row.roundtrip", "sch": sj, "targets": targets, "v": R.val_json(t, v)})
     answers = drv.results(reqs)
     domains = drv.results([dict(r, op="row.domain") for r in reqs])
+    domains2 = drv.results([dict(r, op="row.domain2") for r in reqs])   # hypotheses of Props.C07.parse_unparse
     out = {"n": 0, "ties": [], "viol": [], "strata": {}, "keys": [], "samples": [], "known": []}
 
     def count(s):
         out["strata"][s] = out["strata"].get(s, 0) + 1
 
-    for (si, targets, v, stream), a, dm in zip(cases, answers, domains):
+    for (si, targets, v, stream), a, dm, d2 in zip(cases, answers, domains, domains2):
         t, sj, meta = _SCHEMAS[si]
         out["n"] += 1
+        # the general theorem's own domain, evaluated by the Lean predicates themselves
+        thm = isinstance(d2, dict) and "__error__" not in d2 and all(d2.get(k) is True for k in ("good", "repr", "lay", "remap"))
         # the oracle's domain must be the theorem's domain: Python mirror vs the Lean predicates
         mirror = {"repr": R.representable(t, v), "adm": R.admissible(t, targets), "any": R.any_spread_ok(t, targets, v)}
         if dm != mirror:
@@ -148,8 +151,15 @@ def worker(cases):
         replay = {"schema": R.ty_json(t), "schema_name": t[1], "targets": targets, "value": R.val_json(t, v), "stream": stream}
         if not R.same_outcome(cells_real, cells_model):
             out["ties"].append({"what": "unparse_row: model and real code differ", "real": cells_real, "model": cells_model, **replay})
-        dom = in_domain(t, sj, targets, v)
+        dom_h = in_domain(t, sj, targets, v)
+        dom = dom_h or thm          # the oracle is evaluated on the union
         count(f"{meta['kind']}.{'in' if dom else 'out'}-domain")
+        if thm:
+            count(f"theorem-domain.{meta['kind']}")
+        if thm != dom_h:
+            count("domain.theorem-only" if thm else "domain.harness-mirror-only")
+            if not thm and len(out["samples"]) < 4:
+                out["samples"].append({"harness-mirror-only": t[1], "targets": targets, "lean": d2})
         if cells_real[0] != "ok":
             count("unparse-error")
             if dom:
@@ -330,6 +340,13 @@ def witness_stream(ck):
         ("needs_admissible_depth (spread)", deep, [], {"s": {"xs": ["a"]}}, True),
         ("spread_untyped_list_of_lists_fails (spread)", anyl, [], {"u": [["k", "v"]]}, False),
         ("spread_untyped_list_of_lists_fails (packed)", anyl, ["u"], {"u": [["k", "v"]]}, True),
+        ("needs_layoutOk_on_the_value (items.2)", M("ExItemsDeep", [("items", ("list", M("SubXs", [("xs", ("list", "str"), [])])), [])]),
+         ["items.2"], {"items": [{"xs": ["a"]}, {"xs": ["b"]}]}, False),
+        ("needs_layoutOk_on_the_value (items.2.xs)", M("ExItemsDeep", [("items", ("list", M("SubXs", [("xs", ("list", "str"), [])])), [])]),
+         ["items.2.xs"], {"items": [{"xs": ["a"]}, {"xs": ["b"]}]}, True),
+        ("needs_no_empty_untyped_list_in_list", M("ExUl", [("ul", ("list", "any"), [])]), [], {"ul": [[], ["a"]]}, False),
+        ("needs_remapOk", M("ExBadRemap", [("s", M("SubAB", [("a", "str", ""), ("b", "str", "")], {}, {"a": "h"}), {"a": "", "b": ""})]),
+         [], {"s": {"a": "x", "b": ""}}, False),
         ("example exFam all packed", fam, ["xs", "s", "ys"], {"a": "x;y", "xs": ["a|b", "\\;", "q"], "s": {"p": "p;|q", "q": -7, "w": False, "z": "z"}, "c": True, "ys": ["one"]}, True),
     ]
     drv = core.Driver()
@@ -430,6 +447,10 @@ def run(ck: core.Check):
     known_finding_stream(ck)
     witness_stream(ck)
 
+    for soft in ("theorem-domain.fixed", "theorem-domain.random", "theorem-domain.flow"):
+        if not ck.strata.get(soft):
+            # not an infrastructure matter: a source edit can put a whole schema outside the theorem's family
+            ck.notes.append(f"no generated case satisfies the hypotheses of Props.C07.parse_unparse in stratum {soft}")
     for need in ("fixed.in-domain", "random.in-domain", "flow.in-domain", "layout.packed-some", "layout.all-spread", "file.csv", "file.xlsx"):
         if not ck.strata.get(need):
             raise core.Infra(f"generator self-check: stratum {need} is empty")
@@ -442,8 +463,9 @@ def run(ck: core.Check):
 
 
 PARTIAL_GAP = [
-    "parse_unparse_partial is proved for rows without header remaps whose fields are basic (str/int/float/bool), lists of basic values, untyped lists, sub-records of basic fields, or lists of such sub-records — each list / sub-record / list element independently spread or packed under ANY admissible target-header set, unbounded strings / integers / list lengths / number of fields",
-    "not proved (stated as C07_full, exercised by tie + oracle only): lists of lists, sub-records containing lists / untyped lists / sub-records (so not FlowRowModel.edges with its nested condition, wa_template, webhook), header remaps (field_name_to_header_name / context remap)",
+    "parse_unparse is proved for the whole family goodTop (any nesting of basic types, untyped lists, List[T], sub-records with consistent remap tables), every Representable value and every LayoutOk layout, top-level remaps via RemapConsistent; flow_row_roundtrip instantiates it to the real FlowRowModel with all table side conditions discharged by decide",
+    "outside the theorem by design (each with a kernel-checked negative witness): non-representable values, excluded_headers, one-cell positions deeper than two levels, a spread untyped list holding lists (F-C04-d), record types whose remap tables are not mutually inverse, flow rows whose message_text field is not the main argument of the row type",
+    "the earlier theorems parse_unparse_partial / parse_unparse_flat_partial (static Admissible, first-round family) are kept; the static general statement C07_static_statement is refuted (static_statement_is_false)",
     "floats are an abstract codec: the value domain carries repr(x); float(repr(x)) == x is CPython's, checked by the tie",
 ]
 
